@@ -189,7 +189,11 @@ var c17Soup = func() []peer.Frame {
 }()
 
 func c17Exec(cs c17Case) (*fw.Violation, *harness.Server) {
-	h := harness.NewServer(harness.ServerOpts{MaxConcurrentStreams: 4, NoHandshake: true})
+	so := harness.ServerOpts{MaxConcurrentStreams: 4, NoHandshake: true}
+	if cs.Family == "flood" && strings.HasPrefix(cs.Flood, "running-handlers") {
+		so.MaxConcurrentStreams = 1024 // the library's default: that many handlers may be running when the peer goes
+	}
+	h := harness.NewServer(so)
 	mk := func(rule, shape, detail string) *fw.Violation {
 		ev := h.EventLog
 		if len(ev) > 16 {
@@ -319,6 +323,26 @@ func c17Exec(cs c17Case) (*fw.Violation, *harness.Server) {
 				h.C.SetOutCapacity(1)
 			}
 			h.Send(b)
+			shape = "flood-" + cs.Flood
+			break
+		}
+		if strings.HasPrefix(cs.Flood, "running-handlers") {
+			// K requests whose handlers are all still running when the peer disappears (reading to the end, or
+			// having stopped reading); they return afterwards, more of them than any hand-back queue holds
+			if cs.Flood == "running-handlers-peer-not-reading" {
+				h.C.TakeAll()
+				h.C.SetOutCapacity(1)
+			}
+			for i := 0; i < cs.K && !h.Returned; i++ {
+				id := uint32(2*i + 1)
+				h.SendFrames(peer.Headers(id, reqBlock(id, "GET"), peer.HeadersOpt{EndStream: true, EndHeaders: true, Pad: -1}))
+			}
+			if !cs.Late {
+				// half of them are given up by the peer first
+				for i := 0; i < cs.K/2 && !h.Returned; i++ {
+					h.SendFrames(peer.RstStream(uint32(2*i+1), 8))
+				}
+			}
 			shape = "flood-" + cs.Flood
 			break
 		}
@@ -534,7 +558,7 @@ func runC17(c *fw.Ctx) {
 	}
 	c.Bound["grid_frames"] = ng
 	c.Family("grid")
-	for _, fl := range []string{"ping", "settings", "requests", "error+window-updates", "error+settings", "error+pings", "error+requests", "stream-loop-error+window-updates", "stream-loop-error+settings", "stream-loop-error+pings", "stream-loop-error+requests"} {
+	for _, fl := range []string{"running-handlers", "running-handlers-peer-not-reading", "ping", "settings", "requests", "error+window-updates", "error+settings", "error+pings", "error+requests", "stream-loop-error+window-updates", "stream-loop-error+settings", "stream-loop-error+pings", "stream-loop-error+requests"} {
 		for _, k := range []int{1, 10, 127, 128, 129, 140, 300} {
 			for _, late := range []bool{false, true} {
 				do(c17Case{Family: "flood", Flood: fl, K: k, Late: late})
